@@ -144,7 +144,22 @@ func (b *bungeeMessageResponderAdapter) Servers() []bungeecord.Server {
 	return bungeeServers
 }
 func (b *bungeeMessageResponderAdapter) ConnectedServer() bungeecord.ServerConnection {
-	server := b.player.connectedServer()
+	return b.connectedServerOf(b.player)
+}
+
+func (b *bungeeMessageResponderAdapter) ConnectedServerOf(player bungeecord.Player) bungeecord.ServerConnection {
+	if player == nil {
+		return nil
+	}
+	p, _ := b.Proxy.Player(player.ID()).(*connectedPlayer)
+	return b.connectedServerOf(p)
+}
+
+func (b *bungeeMessageResponderAdapter) connectedServerOf(player *connectedPlayer) bungeecord.ServerConnection {
+	if player == nil {
+		return nil
+	}
+	server := player.connectedServer()
 	if server == nil {
 		return nil
 	}
